@@ -203,6 +203,13 @@ func (reader *H265Reader) NextNAL() (*NAL, error) {
 		return nil, io.EOF
 	}
 
+	// the last unit of the stream is subject to the SEI filter like any other
+	if reader.shouldSkipNAL(NalUnitType((reader.nalBuffer[0] & 0x7E) >> 1)) {
+		reader.nalBuffer = nil
+
+		return nil, io.EOF
+	}
+
 	nal := newNal(reader.nalBuffer)
 	reader.nalBuffer = nil
 	nal.parseHeader()
